@@ -81,6 +81,9 @@ Effect(c) ==
     [] c.op = "GetNewId" -> Same(Out("ok", NewId(1), Zero))
     [] c.op = "GetCategoryDefaultUnit" -> Same(Out("ok", DefaultUnit(c.a.c), Zero))
     [] c.op = "GetCurrentId" -> Same(Out("ok", current, Zero))
+    [] c.op = "GetUnitSystemById" -> Same(IF c.a.id \in Reg THEN Out("ok", c.a.id, Zero) ELSE Exc("VALUE"))
+    [] c.op = "GetQuantityDefaultUnit" ->      \* the current default unit of the quantity's category, else the quantity's own unit
+         Same(Out("ok", IF DefaultUnit(c.a.c) = NONE THEN c.a.u ELSE DefaultUnit(c.a.c), Zero))
     [] c.op \in {"ConvertToCurrent", "ConvertScalarToCurrent"} ->
          \* t = resulting unit, x = resulting value (the Scalar form also keeps the category: checked by the replayer)
          Same(IF DefaultUnit(c.a.c) = NONE THEN Out("ok", c.a.u, c.a.x) ELSE ConvertOut(c.a.c, c.a.u, DefaultUnit(c.a.c), c.a.x))
@@ -107,6 +110,8 @@ GetNewId         == Step(Call("GetNewId", [x |-> 0]))
 QCats == Cats \cup {"depth"}       \* a category that is not the default category of its units
 GetCategoryDefaultUnit == \E c \in QCats : Step(Call("GetCategoryDefaultUnit", [c |-> c]))
 GetCurrentId     == Step(Call("GetCurrentId", [x |-> 0]))
+GetUnitSystemById == \E id \in Ids : Step(Call("GetUnitSystemById", [id |-> id]))
+GetQuantityDefaultUnit == \E c \in QCats : \E u \in { v \in Units : TypeOf[v] = TypeOf[c] } : Step(Call("GetQuantityDefaultUnit", [c |-> c, u |-> u]))
 ConvertToCurrent == \E c \in QCats : \E u \in { v \in Units : TypeOf[v] = TypeOf[c] }, x \in Xs :
                        Step(Call("ConvertToCurrent", [c |-> c, u |-> u, x |-> x]))
 ConvertScalarToCurrent == \E c \in QCats : \E u \in { v \in Units : TypeOf[v] = TypeOf[c] }, x \in Xs :
@@ -114,7 +119,8 @@ ConvertScalarToCurrent == \E c \in QCats : \E u \in { v \in Units : TypeOf[v] = 
 Init == /\ TLCSet(2, 1 + (EmitOffset % 65520)) /\ order = <<>> /\ maps = EmptyM /\ current = NONE
         /\ template = [set |-> FALSE, m |-> EmptyM] /\ log = <<>> /\ hist = <<>>
 Next == SetTemplate \/ AddUnitSystem \/ RemoveUnitSystem \/ SetCurrent \/ SetDefaultUnit \/ RemoveCategory
-        \/ GetNewId \/ GetCategoryDefaultUnit \/ GetCurrentId \/ ConvertToCurrent \/ ConvertScalarToCurrent
+        \/ GetNewId \/ GetCategoryDefaultUnit \/ GetCurrentId \/ GetUnitSystemById \/ GetQuantityDefaultUnit
+        \/ ConvertToCurrent \/ ConvertScalarToCurrent
 Spec == Init /\ [][Next]_vars
 
 \* ---- emission ----------------------------------------------------------------------------------------
